@@ -66,8 +66,8 @@ where
                     b'A'..=b'Z' => decoded |= ((tem - b'A') as u32) << (6 * (3 - i)),
                     b'a'..=b'z' => decoded |= ((tem - b'a' + 26) as u32) << (6 * (3 - i)),
                     b'0'..=b'9' => decoded |= ((tem - b'0' + 52) as u32) << (6 * (3 - i)),
-                    b'+' => decoded |= 62_u32 << (6 * i),
-                    b'/' => decoded |= 63_u32 << (6 * i),
+                    b'+' => decoded |= 62_u32 << (6 * (3 - i)),
+                    b'/' => decoded |= 63_u32 << (6 * (3 - i)),
                     b'=' => {
                         broken = i;
                         break;
@@ -76,7 +76,8 @@ where
                 }
             }
 
-            result.extend_from_slice(&decoded.to_be_bytes()[1..broken]);
+            // Padding in the first position leaves nothing to decode: reject it instead of slicing `1..0`
+            result.extend_from_slice(decoded.to_be_bytes().get(1..broken).ok_or(())?);
         }
 
         Ok(result)
